@@ -42,8 +42,11 @@ def check(repo: Repo, R) -> None:
     R.check(shared.executes_before(fm.node, i_inst, i_app), rule, key_of(fm, "children-first"), fm.site,
             f"a module is appended to the package (line {i_app.lineno}) after all of its instances' targets were exported (loop at line {i_inst.lineno})",
             why="a module appears in the package before a module it instantiates: from_proto and the netlisters meet an undefined reference")
-    R.check(shared.executes_before(fm.node, i_inst, i_id) and shared.executes_before(fm.node, i_inst, i_nm), rule, key_of(fm, "cache-after-completion"), fm.site,
-            f"the by-id / by-name maps are filled (lines {i_id.lineno}, {i_nm.lineno}) only after the module's own export completed", why="a recursive reference returns a half-built module")
+    R.check(shared.executes_before(fm.node, i_inst, i_id), rule, key_of(fm, "cache-after-completion"), fm.site,
+            f"the by-id map (what a later reference to the module gets back) is filled (line {i_id.lineno}) only after the module's own export completed", why="a recursive reference returns a half-built module")
+    R.check(shared.executes_before(fm.node, i_nm, i_inst), "C06.2-unique-names", key_of(fm, "name-reserved-before-children"), fm.site,
+            f"the module's name is reserved (line {i_nm.lineno}) before the modules it instantiates are exported (loop at line {i_inst.lineno})",
+            why="a module instantiated below another module of the same qualified name takes that name too: the package defines one name twice")
     fi = repo.func(F_EXPORT, "ProtoExporter.export_instance")
     ok = False
     for c, b in pat.find("pinst.module.local = $N", fi.node):
@@ -174,6 +177,8 @@ def check(repo: Repo, R) -> None:
     ok = any(isinstance(n, ast.For) and ast.unparse(n.iter) == "self.tops" and bool(pat.find("self.export_module(m)", n)) for n in au.walk_no_nested(fxp.node))
     R.check(ok, rule, key_of(fxp), fxp.site, f"every top-level module is exported: {ok}", why="some tops are missing from the package")
     from . import c02, c03, c08
+    c02.dispatch_completeness(repo, shared.Retag(R, lambda r, k: "C06.10-every-connected-object-is-owned" if "check_connectable" in k else None,
+                                                 "a signal that was never added to the module (or belongs to another one) passes the ownership check inside a slice, concatenation or anonymous bundle: the package names an undeclared signal"), noreturn_set(repo))
     c08.check(repo, shared.Retag(R, lambda r: "C06.9-failed-visit-never-exported" if r.startswith("C08.3") else None,
                                  "a module on which a checking pass failed is exported by the next call (the failure was not recorded, the checks are cached as done): the package is ill-formed"))
     c03.slice_inner(repo, shared.Retag(R, lambda r: "C06.7-targets-stay-inside-widths" if "index-bounds" in r else None,
